@@ -65,9 +65,25 @@ theorem numeric_not_decnan {v : PyVal} (h : Numeric v) : isDecNan v = false := b
     subst hx
     simp [NumV.isNan] at hn
 
+theorem numeric_not_floatnan {v : PyVal} (h : Numeric v) : isFloatNan v = false := by
+  obtain ⟨x, hx, hn⟩ := h
+  cases v <;> try rfl
+  rename_i f
+  cases f with
+  | fin _ _ => rfl
+  | inf _ => rfl
+  | nan =>
+    simp [num?] at hx
+    subst hx
+    simp [NumV.isNan] at hn
+
 theorem lt_numeric {v b : PyVal} {x y : NumV} (hv : num? v = some x) (hb : num? b = some y)
-    (nv : isDecNan v = false) (nb : isDecNan b = false) : lt v b = .ok (NumV.lt x y) := by
-  simp [lt, hv, hb, nv, nb, pure, Except.pure]
+    (nx : x.isNan = false) (ny : y.isNan = false) : lt v b = .ok (NumV.lt x y) := by
+  have dv := numeric_not_decnan ⟨x, hv, nx⟩
+  have db := numeric_not_decnan ⟨y, hb, ny⟩
+  have fv := numeric_not_floatnan ⟨x, hv, nx⟩
+  have fb := numeric_not_floatnan ⟨y, hb, ny⟩
+  simp [lt, hv, hb, dv, db, fv, fb, pure, Except.pure]
 
 theorem eq_numeric {v b : PyVal} {x y : NumV} (hv : num? v = some x) (hb : num? b = some y) :
     eq v b = NumV.eq x y := by
